@@ -329,8 +329,43 @@ Definition reverse1 (s : str1) : str1 := map_content s (@rev N).
 Definition replace_ch1 (s : str1) (a b max from : N) : str1 * N :=
   let '(l, k) := l0_replace_ch (abs s) a b max from in (map_content s (fun _ => l), k).
 
-(* Replace(const String &, const String &, max, from): the storage decisions are the code's, the
-   scan itself is the level-0 function (the pointer loop over strstr is not re-modelled) *)
+(* Replace(const String &, const String &, max, from), the pointer loop.
+   In place (the replacement is not longer than the needle): [b] is our buffer, [r] the read offset, [w] the write
+   offset (None until the first match), [mv] says whether the segments between matches are memmove'd (lengths differ). *)
+Fixpoint repl_inplace (fuel : nat) (b : list N) (len r : N) (w : option N) (rm wm : list N) (mv : bool) (max cnt : N)
+  : list N * option N * N :=
+  match fuel with
+  | O => (b, w, cnt)
+  | S f =>
+    match (if 0 <? max then find_sub rm (cstr (dropN r b)) else None) with     (* strstr(readPtr, replaceMe()) *)
+    | Some k =>
+        let '(b1, w1) := match w with
+                         | Some wp => ((if mv then blit b wp (takeN k (dropN r b)) else b), wp + k)
+                         | None => (b, r + k)
+                         end in
+        repl_inplace f (blit b1 w1 wm) len (r + k + lenN rm) (Some (w1 + lenN wm)) rm wm mv (max - 1) (cnt + 1)
+    | None =>
+        match w with
+        | Some wp => let nb := len - r in
+                     (upd (if mv then blit b wp (takeN nb (dropN r b)) else b) (wp + nb) 0, Some (wp + nb), cnt)
+        | None => (b, None, cnt)
+        end
+    end
+  end.
+(* Copy-over (the replacement is longer): read from our buffer [sb], write into the temporary's buffer [tb] at [w] *)
+Fixpoint repl_copy (fuel : nat) (sb : list N) (len r : N) (tb : list N) (w : N) (rm wm : list N) (max cnt : N)
+  : list N * N * N :=
+  match fuel with
+  | O => (tb, w, cnt)
+  | S f =>
+    match (if 0 <? max then find_sub rm (cstr (dropN r sb)) else None) with
+    | Some k =>
+        let tb1 := blit tb w (takeN k (dropN r sb)) in
+        repl_copy f sb len (r + k + lenN rm) (blit tb1 (w + k) wm) (w + k + lenN wm) rm wm (max - 1) (cnt + 1)
+    | None => let nb := len - r in (upd (blit tb w (takeN nb (dropN r sb))) (w + nb) 0, w + nb, cnt)
+    end
+  end.
+
 Definition replace_s1 (s : str1) (rm wm : option src) (max from : N) : str1 * Z :=
   let me := abs s in
   let rb := src_bytes (osrc s rm) in
@@ -343,16 +378,23 @@ Definition replace_s1 (s : str1) (rm wm : option src) (max from : N) : str1 * Z 
   match rm with
   | None => if from =? 0 then (snd (set_from s wm 0 NOLIMIT), 1%Z) else (s, 0%Z)
   | Some _ =>
-    let '(res, cnt) := l0_replace_sub me rb wb max from in
+    let fuel := S (length me) in
     if lenN rb <? lenN wb then
       let ninst := N.min (l0_count_sub me rb from) max in
       if ninst =? 0 then (s, 0%Z) else
       match prealloc empty1 (u32 (slen s + (lenN wb - lenN rb) * ninst)) with
-      | (StOk, t) => (commit t (blit (buf t) 0 (res ++ [0])) (lenN res), Z.of_N cnt)     (* temp filled, SwapContents *)
+      | (StOk, t) =>
+          let tb0 := blit (buf t) 0 (takeN from (buf s)) in                      (* the first fromIndex bytes, one by one *)
+          let '(tb, w, cnt) := repl_copy fuel (buf s) (slen s) from tb0 from rb wb max 0 in
+          (commit t tb w, Z.of_N cnt)                                            (* temp.SetLength(..); SwapContents(temp) *)
       | (_, _) => (s, (-1)%Z)
       end
-    else if cnt =? 0 then (s, 0%Z)
-    else (commit s (blit (buf s) 0 (res ++ [0])) (lenN res), Z.of_N cnt)
+    else
+      let '(b, w, cnt) := repl_inplace fuel (buf s) (slen s) from None rb wb (negb (lenN rb =? lenN wb)) max 0 in
+      match w with
+      | Some wp => (commit s b wp, Z.of_N cnt)
+      | None => (s, Z.of_N cnt)
+      end
   end.
 
 (* Flatten / Unflatten(DataUnflattener over exactly these bytes) *)
